@@ -516,6 +516,15 @@ def vm_modifier_arms(vfn, variants):
     roots = [x for x in walk(vfn["body"]) if kind(x) == "If" and kind(peel(x["cond"])) == "LetExpr"
              and any(kind(y) == "MethodCall" and y["m"] == "get" and "HashMap" in str(y.get("rty", "")) for y in walk(x["cond"]))]
     if not roots:
+        # `let Some(rule) = self.rules.get(rule) else { built-ins .. };` followed by the user-rule dispatch as the tail
+        for blk in walk(vfn["body"]):
+            if kind(blk) != "Block":
+                continue
+            for i, st in enumerate(blk.get("stmts", [])):
+                if st.get("k") == "Let" and st.get("els") is not None and st.get("init") is not None and any(
+                        kind(y) == "MethodCall" and y["m"] == "get" and "HashMap" in str(y.get("rty", "")) for y in walk(st["init"])):
+                    roots = [{"k": "Block", "stmts": blk["stmts"][i + 1:], "expr": blk.get("expr"), "sp": blk.get("sp")}]
+    if not roots:
         return out
     for ty in variants:
         for ws in (False, True):
